@@ -98,3 +98,154 @@ func TestVerifWitness_D28(t *testing.T) {
 		n.API.DeleteIndex(nil, index)
 	}
 }
+
+// D28a: fragment.minRow/maxRow read the storage tree and maxRowID without the
+// fragment lock. The witness is meaningful in a -race build (the C29 units):
+// the detector reports the unordered accesses and fails the test.
+func TestVerifWitness_D28a(t *testing.T) {
+	dir, err := ioutil.TempDir(os.Getenv("VERIF_RUNDIR"), "vc29-d28a-")
+	if err != nil {
+		t.Fatal(err)
+	}
+	defer os.RemoveAll(dir)
+	f, err := vc29OpenFragment(dir+"/0", 0, 0, nil)
+	if err != nil {
+		t.Fatal(err)
+	}
+	defer f.Close()
+	var wg sync.WaitGroup
+	wg.Add(2)
+	go func() {
+		defer wg.Done()
+		for r := uint64(0); r < 300; r++ {
+			if _, err := f.setBit(r, r%7); err != nil {
+				t.Error(err)
+				return
+			}
+		}
+	}()
+	go func() {
+		defer wg.Done()
+		for i := 0; i < 300; i++ {
+			f.maxRow(nil)
+			f.minRow(nil)
+		}
+	}()
+	wg.Wait()
+}
+
+// D28b: Field.ClearBit read the view map without the field lock while Set()
+// calls with timestamps create views (meaningful in a -race build).
+func TestVerifWitness_D28b(t *testing.T) {
+	dir, err := ioutil.TempDir(os.Getenv("VERIF_RUNDIR"), "vc29-d28b-")
+	if err != nil {
+		t.Fatal(err)
+	}
+	defer os.RemoveAll(dir)
+	n, err := vgcOpenNode(dir)
+	if err != nil {
+		t.Fatal(err)
+	}
+	defer n.Close()
+	if _, err := n.API.CreateIndex(nil, "w", IndexOptions{}); err != nil {
+		t.Fatal(err)
+	}
+	fld, err := n.API.CreateField(nil, "w", "t", OptFieldTypeTime(TimeQuantum("YMD")))
+	if err != nil {
+		t.Fatal(err)
+	}
+	if _, err := fld.SetBit(0, 0, nil); err != nil {
+		t.Fatal(err)
+	}
+	var wg sync.WaitGroup
+	wg.Add(2)
+	go func() {
+		defer wg.Done()
+		for d := 0; d < 40; d++ {
+			ts := time.Date(2001+d, time.Month(1+d%12), 1+d%28, 0, 0, 0, 0, time.UTC)
+			if _, err := fld.SetBit(1, 1, &ts); err != nil {
+				t.Error(err)
+				return
+			}
+		}
+	}()
+	go func() {
+		defer wg.Done()
+		for i := 0; i < 400; i++ {
+			if _, err := fld.ClearBit(0, 0); err != nil {
+				t.Error(err)
+				return
+			}
+		}
+	}()
+	wg.Wait()
+}
+
+// DC5 (open): BSI range reads (Row(v == x), <, >, between, and Sum/Min/Max)
+// evaluate row by row and take the fragment lock once per row, so a Set() that
+// runs in between is seen half: the high bits of the old value and the low bits
+// of the new one. Column 1 holds 0 and is set to 5 (binary 101) while
+// Row(v == 1) has read the existence, sign and bit-2 rows: the result contains
+// column 1, which never held 1. The witness single-steps the reader by holding
+// the fragment lock and watching which rows it has read (they enter the row cache).
+func TestVerifWitness_DC5(t *testing.T) {
+	f := mustOpenBSIFragment("i", "v", viewBSIGroupPrefix+"v", 0)
+	defer f.Close()
+	const depth = 3
+	order := []uint64{bsiExistsBit, bsiSignBit, bsiOffsetBit + 2, bsiOffsetBit + 1, bsiOffsetBit + 0}
+	for attempt := uint64(0); attempt < 400; attempt++ {
+		col := attempt + 1
+		if _, err := f.setValue(col, depth, 0); err != nil {
+			t.Fatal(err)
+		}
+		f.mu.Lock()
+		for _, r := range order {
+			f.rowCache.Add(r, nil)
+		}
+		progress := func() int {
+			n := 0
+			for _, r := range order {
+				if row, ok := f.rowCache.Fetch(r); ok && row != nil {
+					n++
+				} else {
+					break
+				}
+			}
+			return n
+		}
+		done := make(chan *Row, 1)
+		go func() {
+			row, err := f.rangeOp(pql.EQ, depth, 1)
+			if err != nil {
+				t.Error(err)
+			}
+			done <- row
+		}()
+		hit := false
+		for spins := 0; spins < 100000; spins++ {
+			p := progress()
+			if p == 3 {
+				// the reader has seen "exists, not negative, bit 2 clear": now the write 0 -> 5
+				if _, err := f.unprotectedSetBit(bsiOffsetBit+0, col); err != nil {
+					t.Fatal(err)
+				}
+				if _, err := f.unprotectedSetBit(bsiOffsetBit+2, col); err != nil {
+					t.Fatal(err)
+				}
+				hit = true
+				break
+			}
+			if p > 3 {
+				break
+			}
+			f.mu.Unlock()
+			runtime.Gosched()
+			f.mu.Lock()
+		}
+		f.mu.Unlock()
+		row := <-done
+		if hit && row != nil && row.Includes(col) {
+			t.Fatalf("Row(v == 1) returned column %d, which held 0 and was set to 5 while the query ran (attempt %d): the query read bit 2 before and bits 1,0 after the write — a value never written", col, attempt)
+		}
+	}
+}
